@@ -742,8 +742,8 @@ Lemma single_sound A x B y mn mx s :
 Proof.
   intros HA HB LA LB Hup Hsm Hanch Hdoll Hunit Hsingle (pre & ms & post & -> & HM).
   apply MSeq_ctx in HM. destruct HM as (sa & sy & sb & -> & HMA & HMy & HMB).
-  assert (sa = []) by (eapply ats_empty; eauto). subst sa.
-  assert (sb = []) by (eapply ats_empty; eauto). subst sb.
+  assert (sa = []) by (exact (ats_empty catp A HA _ _ _ HMA)). subst sa.
+  assert (sb = []) by (exact (ats_empty catp B HB _ _ _ HMB)). subst sb.
   rewrite ?app_nil_r in *. cbn [app] in *.
   assert (Hlit : forall x0, x0 = x -> is_char_node x0 = true -> is_some_zero mx = false -> handle_literal x0 mn mx = UNew y ->
             search (A ++ x0 :: B) (pre ++ sy ++ post) /\ len_in mn mx (pre ++ sy ++ post) = true).
